@@ -32,4 +32,7 @@ pub use store::*;
 
 pub mod store_droppable;
 
+#[cfg(rs_store_verif)]
+pub mod verif;
+
 pub use store_droppable::*;
